@@ -91,8 +91,12 @@ class TypeRegistry:
         if self.shortcut and hasattr(t, self.shortcut) and self.validator(getattr(t, self.shortcut)):
             # this type already got a callable transformer, do not resolve then
             return getattr(t, self.shortcut)
-        if self.cache and t in self._cache:
-            return self._cache[t]
+        if self.cache:
+            try:
+                # one lookup: a concurrent register() may clear the cache between a membership test and the read
+                return self._cache[t]
+            except KeyError:
+                pass
         for detector, trans, priority in self._registry:
             try:
                 if detector(t):
